@@ -25,7 +25,7 @@ CLAIMED = {
         "variants; arg_combinations must list only valid cuts; all recorded histories (begin/call/return/raise events with "
         "arguments and values) plus random DAGs up to 6 functions are validated by TLC (TracePipelineCall.tla).",
    note="Trusted: TLC, the term encoding, build.py (description -> PipeFunc). Keywords shadowed by a bound value are a stated "
-        "don't-care. Known finding F31 (arg_combinations lists unused sibling outputs).",
+        "don't-care.",
    technique="TLA+ spec of call semantics checked by TLC; universe export + replay into Pipeline; TLC trace validation"),
  "C01": dict(
    category="model_checking", design_ref="6 C01",
